@@ -185,7 +185,7 @@ def chain_inputs(draw, cfg):
 
 
 PROFILE = {'weights': {'transfer': 7, 'container': 2, 'plate': 1, 'remove': 1, 'fill_to': 1, 'slice': 1},
-           'q_modes': ['frac'] * 9 + ['whole'], 'self_transfer': False}
+           'q_modes': ['frac'] * 9 + ['whole'], 'self_transfer': False, 'initial_slices': 1}
 
 
 def run(col):
